@@ -128,8 +128,15 @@ def run_unit(unit):
     base = LZ.with_stop(LZ.fix_thickness_signs([A[i] for i in unit['word']]), unit['stop'])
     waves = ((0.4861, False), (0.5876, True), (0.6563, False))
     short = len(unit['word']) <= 2
-    for obj, ft, mf in ((LZ.INF, 'angle', p['ang']), (p['od'][0], 'object_height', p['h'])):
-        sp0 = LZ.spec(base, obj=obj, ap=('EPD', p['epd']), ftype=ft, fields=(0.0, 0.7 * mf, mf), waves=waves)
+    water = ['ideal', 1.33, 0.0]
+    cfgs = [(LZ.INF, 'angle', p['ang'], None), (p['od'][0], 'object_height', p['h'], None)]
+    if short:
+        cfgs.append((LZ.INF, 'angle', p['ang'], water))       # the oblique plane wave travels in a medium (water port)
+    for obj, ft, mf, omat in cfgs:
+        if omat and medium_after(dict(surfs=base, obj_mat=omat), len(base) - 1) != 'air':
+            part.count('skipped-image-space-not-air')      # (mirrors only: the image would lie in the object medium)
+            continue
+        sp0 = LZ.spec(base, obj=obj, ap=('EPD', p['epd']), ftype=ft, fields=(0.0, 0.7 * mf, mf), waves=waves, obj_mat=omat)
         rows0 = prescription.rows(sp0, lambda m, prev: LZ.ref_index(m, 0.5876, prev))
         if abcd.pupil_degenerate(rows0):
             part.count('skipped-telecentric-pupil')
@@ -146,14 +153,14 @@ def run_unit(unit):
         nm_ = sum(1 for s_ in base if s_['mat'] == 'mirror')
         tsign = -1.0 if nm_ % 2 else 1.0
         for off in (0.0, 0.4, -0.7):
-            sp = LZ.spec(base, obj=obj, ap=('EPD', p['epd']), ftype=ft, fields=(0.0, 0.7 * mf, mf), waves=waves)
+            sp = LZ.spec(base, obj=obj, ap=('EPD', p['epd']), ftype=ft, fields=(0.0, 0.7 * mf, mf), waves=waves, obj_mat=omat)
             sp['surfs'][-1]['t'] = sp['surfs'][-1]['t'] + focus_shift + off
             if sp['surfs'][-1]['t'] * tsign < 0.3:
                 part.count('skipped-virtual-image')
                 continue
             o = LZ.build(sp)
             part.states += 1
-            cond = f"object={'infinite' if math.isinf(obj) else 'finite'},field={ft}"
+            cond = f"object={'infinite' if math.isinf(obj) else 'finite'},field={ft}" + (',object-medium=immersed' if omat else '')
             det0 = dict(word=unit['word'], stop=unit['stop'], variant=v, obj=obj, defocus=off)
             for w in (0.5876, 0.4861, 0.6563):
                 rows_w = prescription.rows(sp, lambda m, prev: LZ.ref_index(m, w, prev))
